@@ -1,11 +1,45 @@
 import QcoVerif.Driver.Heap
+import QcoVerif.Model.StimExport
 /-
   Extension of the `heap` session protocol (Stim). `step` returns `none` for commands it does not know.
+
+    stim <c>        flattened export of circuit c: `NAME:targets:args;… # <measurements>` | `error` | `undef`
+    stimcount <c>   number of measurement results | `error` | `undef`
+    stimtable       the class → gate-name table, `Class=NAME,…` in `Cls.all` order (unsupported omitted)
+    stimop <Class> <qubits> <ints>   translation of one free-standing operation: instruction | `none` | `error`
 -/
 namespace Qco.Driver.HeapStim
 
 open Qco Qco.Driver
 
-def step (_s : Sess) (_toks : List String) : Option (Sess × String) := none
+def answer (w : World) (c : Nat) (f : List Instr → String) : String :=
+  if !w.nestWithin w.depthFuel c then "undef" else
+  match w.stimExport? c with
+  | none => "error"
+  | some l => f l
+
+def step (s : Sess) (toks : List String) : Option (Sess × String) :=
+  match toks with
+  | ["stim", c] =>
+    match c.toNat? with
+    | some c => if c ≥ s.circs.size then some (s, "bad-op") else
+      some (s, answer s.w s.circs[c]! showProgram)
+    | none => some (s, "bad-op")
+  | ["stimcount", c] =>
+    match c.toNat? with
+    | some c => if c ≥ s.circs.size then some (s, "bad-op") else
+      some (s, answer s.w s.circs[c]! (fun l => toString (measCount l)))
+    | none => some (s, "bad-op")
+  | ["stimtable"] =>
+    some (s, ",".intercalate (Cls.all.filterMap (fun c => c.stimName.map (fun n => c.name ++ "=" ++ n))))
+  | ["stimop", cls, qs, ints] =>
+    match Cls.ofName? cls, parseList String.toInt? qs, parseList parseOptInt? ints with
+    | some cls, some qs, some ints =>
+      let o : Op := { cls := cls, qs := qs, ints := ints }
+      some (s, match translate o with
+        | none => "none"
+        | some i => if o.stimOk then i.show else "error")
+    | _, _, _ => some (s, "bad-op")
+  | _ => none
 
 end Qco.Driver.HeapStim
